@@ -380,16 +380,16 @@ class StorySend(MosFile):
         """
         Merge into the :class:`RunningOrder` object provided.
         """
-        try:
-            story, story_index = ro._find_story(self.story.id)
-        except ValueError:
+        new_story = self.story
+        story, story_index = find_child(parent=ro.base_tag, child_tag='story', id=new_story.id)
+        if story is None:
             msg = f"{self.__class__.__name__} error in {self.message_id} - story not found"
             logger.warning(msg)
             warnings.warn(msg, StoryNotFoundWarning)
             return ro
 
         remove_node(parent=ro.base_tag, node=story)
-        insert_node(parent=ro.base_tag, node=self.story.xml, index=story_index)
+        insert_node(parent=ro.base_tag, node=new_story.xml, index=story_index)
         return ro
 
     def inspect(self):
